@@ -101,3 +101,61 @@ Proof. intros Hz Hw Ho Hal. destruct (seek_set_ok fs s off Ho) as [s' [E [HI Ha]
   unfold absp in Ha. pose proof (before_aligned isz fs Hz Hw (ifile s') ltac:(destruct HI; lia)).
   replace (pos s' - hdrlen (fileat fs (ifile s'))) with (off - before fs (ifile s')) by lia.
   rewrite Zminus_mod, Hal, H. reflexivity. Qed.
+
+(** * every history of item-aligned operations at an item width of isz bytes (16 and 32 bits: isz = 2, 4) *)
+Definition op_aligned (isz : Z) (o : op) : Prop :=
+  match o with SeekSet off => off mod isz = 0 | SeekCur off => off mod isz = 0 | Cread n => 0 <= n | Creadinto n => 0 <= n /\ n mod isz = 0 end.
+
+Lemma absp_aligned isz fs s : 0 < isz -> whole_items isz fs -> InvA isz fs s -> absp fs s mod isz = 0.
+Proof. intros Hz Hw [HI Hal]. unfold absp. pose proof (before_aligned isz fs Hz Hw (ifile s) ltac:(destruct HI; lia)).
+  rewrite Z.add_mod by lia. rewrite H, Hal. reflexivity. Qed.
+
+Lemma aligned_InvA isz fs s : 0 < isz -> whole_items isz fs -> Inv fs s -> absp fs s mod isz = 0 -> InvA isz fs s.
+Proof. intros Hz Hw HI Hal. split; [assumption|]. unfold absp in Hal.
+  pose proof (before_aligned isz fs Hz Hw (ifile s) ltac:(destruct HI; lia)).
+  replace (pos s - hdrlen (fileat fs (ifile s))) with (before fs (ifile s) + (pos s - hdrlen (fileat fs (ifile s))) - before fs (ifile s)) by lia.
+  rewrite Zminus_mod, Hal, H. reflexivity. Qed.
+
+Lemma total_aligned isz fs : 0 < isz -> whole_items isz fs -> total fs mod isz = 0.
+Proof. intros Hz Hw. rewrite <- before_all. apply before_aligned; try assumption. unfold nfiles. lia. Qed.
+
+Lemma step_items_refines isz fs s o : 0 < isz -> whole_items isz fs -> InvA isz fs s -> op_aligned isz o ->
+  let '(s', r) := step fs isz s o in
+  let '(p', r') := spec_step (flat fs) isz (absp fs s) o in
+  r = r' /\ absp fs s' = p' /\ InvA isz fs s'.
+Proof. intros Hz Hw HA Hok. pose proof HA as [HI _]. pose proof (absp_bounds fs s HI) as Hab.
+  pose proof (absp_aligned isz fs s Hz Hw HA) as Hpa. pose proof (total_aligned isz fs Hz Hw) as Hta.
+  destruct o as [off|off|n|n]; cbn [step spec_step op_aligned] in *.
+  - rewrite len_flat. destruct (Z.leb_spec 0 off); destruct (Z.ltb_spec off (total fs)); cbn [andb].
+    + destruct (seek_set_aligned fs isz s off Hz Hw ltac:(lia) Hok) as [s' [-> [HA' Ha']]]. auto.
+    + rewrite seek_set_err by lia. auto.
+    + rewrite seek_set_err by lia. auto.
+    + rewrite seek_set_err by lia. auto.
+  - unfold seek_cur_op. rewrite stream_pos_abs by assumption. rewrite len_flat.
+    assert (Hoa : (off + absp fs s) mod isz = 0) by (rewrite Z.add_mod by lia; rewrite Hok, Hpa; reflexivity).
+    destruct (Z.leb_spec 0 (off + absp fs s)); destruct (Z.ltb_spec (off + absp fs s) (total fs)); cbn [andb].
+    + destruct (seek_set_aligned fs isz s (off + absp fs s) Hz Hw ltac:(lia) Hoa) as [s' [-> [HA' Ha']]]. auto.
+    + rewrite seek_set_err by lia. auto.
+    + rewrite seek_set_err by lia. auto.
+    + rewrite seek_set_err by lia. auto.
+  - rewrite len_flat. destruct (cread_items_spec fs isz s n Hz Hw HA Hok) as [L1 L2].
+    destruct (Z.leb_spec (absp fs s + n * isz) (total fs)).
+    + destruct (L1 ltac:(lia)) as [s' [-> [HA' Ha']]]. auto.
+    + destruct (L2 ltac:(lia)) as [s' [-> [HA' Ha']]]. auto.
+  - destruct Hok as [Hn Hna]. rewrite len_flat. destruct (creadinto_spec fs s n HI Hn) as [s' [-> [HI' Ha']]].
+    split; [reflexivity|]. split; [assumption|]. apply aligned_InvA; try assumption. rewrite Ha'.
+    destruct (Z.min_spec n (total fs - absp fs s)) as [[_ ->]|[_ ->]].
+    + rewrite Z.add_mod by lia. rewrite Hpa, Hna. reflexivity.
+    + replace (absp fs s + (total fs - absp fs s)) with (total fs) by lia. assumption. Qed.
+
+Theorem items_run_refines isz fs : 0 < isz -> whole_items isz fs -> forall ops s, InvA isz fs s -> Forall (op_aligned isz) ops ->
+  run fs isz s ops = spec_run (flat fs) isz (absp fs s) ops.
+Proof. intros Hz Hw. induction ops as [|o r IH]; intros s HA Hok; [reflexivity|]. inversion Hok as [|? ? Ho Hr]; subst.
+  cbn [run spec_run]. pose proof (step_items_refines isz fs s o Hz Hw HA Ho) as L.
+  destruct (step fs isz s o) as [s' res]. destruct (spec_step (flat fs) isz (absp fs s) o) as [p' res'].
+  destruct L as [-> [Ha HA']]. rewrite stream_pos_abs by apply HA'. rewrite Ha. f_equal. rewrite <- Ha. apply IH; assumption. Qed.
+
+Theorem items_stream_refines isz fs ops : 1 <= nfiles fs -> 0 < isz -> whole_items isz fs -> Forall (op_aligned isz) ops ->
+  run fs isz (init fs) ops = spec_run (flat fs) isz 0 ops.
+Proof. intros H Hz Hw Hok. destruct (init_inv fs H) as [HI Ha]. rewrite <- Ha. apply items_run_refines; try assumption.
+  apply aligned_InvA; try assumption. rewrite Ha. apply Z.mod_0_l. lia. Qed.
